@@ -186,6 +186,7 @@ class Builder(object):
                     a["viewBox"] = "%s %s %s %s" % (fmtn(num(d, -20, 20)), fmtn(num(d, -20, 20)), fmtn(max(num(d, 10, 200), 0.0 if d.chance(1, 16) else 1.0)), fmtn(max(num(d, 10, 200), 1.0)))
                     if d.chance(3, 8):
                         a["preserveAspectRatio"] = d.choice(["none", "xMinYMin", "xMaxYMax slice", "xMidYMid meet", "xMinYMax", "xMidYMin slice"])
+                aligned_viewbox(d, a)
                 s["children"] = self.container(depth + 1, in_defs, hidden)
                 out.append(s)
             elif k == 8 and self.o.get("use", True):
@@ -203,6 +204,29 @@ class Builder(object):
         return out
 
 
+ALIGNS = ["xMinYMin", "xMidYMin", "xMaxYMin", "xMinYMid", "xMidYMid", "xMaxYMid", "xMinYMax", "xMidYMax", "xMaxYMax"]
+
+
+def aligned_viewbox(d, a):
+    """sometimes replace the viewBox by one derived from the element's own size (simple ratios per axis, origin
+    mostly 0, any alignment): scale factors of exactly 1 and viewport transforms that are exactly the identity while
+    the size differs from the viewBox size occur this way, which independent random numbers never produce"""
+    try:
+        w, h = float(a.get("width", "x")), float(a.get("height", "x"))
+    except ValueError:
+        return
+    if w <= 0 or h <= 0 or not d.chance(1, 3):
+        return
+    fw, fh = d.choice([1.0, 1.0, 1.0, 2.0, 0.5]), d.choice([1.0, 1.0, 2.0, 0.5, 3.0, 0.25])
+    ox, oy = (0.0, 0.0) if d.chance(5, 8) else (float(d.int(-5, 5)), float(d.int(-5, 5)))
+    a["viewBox"] = "%s %s %s %s" % (fmtn(ox), fmtn(oy), fmtn(w * fw), fmtn(h * fh))
+    k = d.below(4)
+    if k == 0:
+        a.pop("preserveAspectRatio", None)
+    else:
+        a["preserveAspectRatio"] = d.choice(ALIGNS + ["xMinYMin", "xMinYMin", "xMidYMin", "xMinYMid"]) + ("" if k == 1 else (" meet" if k == 2 else " slice"))
+
+
 def build_doc(d, opts=None):
     opts = dict(opts or {})
     b = Builder(d, opts)
@@ -217,6 +241,7 @@ def build_doc(d, opts=None):
         a["viewBox"] = "%s %s %s %s" % (fmtn(num(d, -20, 20)), fmtn(num(d, -20, 20)), fmtn(max(num(d, 50, 400), 1.0)), fmtn(max(num(d, 50, 400), 1.0)))
         if d.chance(3, 8):
             a["preserveAspectRatio"] = d.choice(["none", "xMinYMin", "xMaxYMax slice", "xMidYMid meet", "xMaxYMid", "xMidYMax slice"])
+    aligned_viewbox(d, a)
     b.maybe_transform(root, 1)
     if opts.get("caller", True):
         kk = d.below(6)
